@@ -311,6 +311,7 @@ func callCmdNoArgs(ctx *blockCtx, src ast.Node, panicErr bool) (err error) {
 }
 
 func compileExpr(ctx *blockCtx, expr ast.Expr, inFlags ...int) {
+	verifStep()
 	switch v := expr.(type) {
 	case *ast.Ident:
 		flags, cmdNoArgs := identOrSelectorFlags(inFlags)
